@@ -65,6 +65,7 @@ func FullAssembly(conf *config.Root) (*Services, error) {
 	if err != nil {
 		return nil, err
 	}
+	pop3Server.UseAddressPolicy(addrPolicy)
 	smtpServer := smtp.NewServer(conf.SMTP, mmanager, addrPolicy, extHost)
 
 	s := &Services{
